@@ -21,9 +21,9 @@ def run_check(tier):
     chk.add_cases(len(pairs), distinct_keys=((json.dumps(s["doc"]), json.dumps(s["root"]), json.dumps(s["pol"])) for s in sc), validated=len(pairs))
     chk.sample({"scenario": {k: sc[len(sc) // 2][k] for k in ("doc", "root", "pol")}, "expected": sc[len(sc) // 2]["exp"]})
     del pairs, sc
-    jc.load_leg(chk, tier, "skip", {"MaxOps": 2 if quick else 3, "Widths": "{0, 3}" if quick else "{0, 1, 3, 4, 6}"},
+    jc.load_leg(chk, tier, "skip", {"MaxOps": 2, "Widths": "{0, 3}" if quick else "{0, 1, 3, 4, 6}"},
                 ["SkipNeverThrows", "SkipKeepsShape", "Export"], label="JSON load with offending values")
-    jc.load_leg(chk, tier, "skip", {"MaxOps": 2 if quick else 3, "Widths": "{0, 3}" if quick else "{0, 1, 2, 3, 5}"},
+    jc.load_leg(chk, tier, "skip", {"MaxOps": 2, "Widths": "{0, 3}" if quick else "{0, 1, 2, 3, 5}"},
                 ["SkipNeverThrows", "SkipKeepsShape", "Export"], label="XML load with offending values", arch="xml")
     return chk.finish()
 
